@@ -503,11 +503,11 @@ Section BTop.
     - reflexivity.
   Qed.
 
-  Lemma window_thm : forall lines t0 sch inp p, zlength inp = input_len lines t0 ->
+  Lemma reach_inv : forall lines t0 sch inp p, zlength inp = input_len lines t0 ->
     let x0 := binit L PS (init_st lines t0 sch) inp in
     match iter_pos p (init_st lines t0 sch) with
-    | Next s => exists x, biter (Pos.to_nat p) x0 = BNext x /\ x_s x = s /\ window inp x
-    | Done r s => exists x, biter (Pos.to_nat p) x0 = BDone r x /\ x_s x = s /\ window inp x
+    | Next s => exists x, biter (Pos.to_nat p) x0 = BNext x /\ x_s x = s /\ BInv L PS inp x /\ WFm' lines t0 s
+    | Done r s => exists x, biter (Pos.to_nat p) x0 = BDone r x /\ x_s x = s /\ BInv L PS inp x /\ WFm' lines t0 s
     | StPanic _ => False
     end.
   Proof.
@@ -521,9 +521,23 @@ Section BTop.
     change (x_s x0) with (init_st lines t0 sch) in S.
     destruct (iter_nat (Pos.to_nat p) (init_st lines t0 sch)) as [s|r s|t];
       destruct (biter (Pos.to_nat p) x0) as [x|r1 x|t1]; cbn [sim] in S; try contradiction.
-    - destruct S as [E I]. exists x. split; [reflexivity|]. split; [exact E|]. subst s.
-      apply (binv_window lines t0); [exact I|apply W].
-    - destruct S as [Er [E I]]. subst r1. exists x. split; [reflexivity|]. split; [exact E|]. subst s.
-      apply (binv_window lines t0); [exact I|exact W].
+    - destruct S as [E I]. exists x. split; [reflexivity|]. split; [exact E|]. split; [exact I|apply W].
+    - destruct S as [Er [E I]]. subst r1. exists x. split; [reflexivity|]. split; [exact E|]. split; [exact I|exact W].
+  Qed.
+
+  Lemma window_thm : forall lines t0 sch inp p, zlength inp = input_len lines t0 ->
+    let x0 := binit L PS (init_st lines t0 sch) inp in
+    match iter_pos p (init_st lines t0 sch) with
+    | Next s => exists x, biter (Pos.to_nat p) x0 = BNext x /\ x_s x = s /\ window inp x
+    | Done r s => exists x, biter (Pos.to_nat p) x0 = BDone r x /\ x_s x = s /\ window inp x
+    | StPanic _ => False
+    end.
+  Proof.
+    intros lines t0 sch inp p H x0. pose proof (reach_inv lines t0 sch inp p H) as R. cbv zeta in R. fold x0 in R.
+    destruct (iter_pos p (init_st lines t0 sch)) as [s|r s|t]; [| |exact R].
+    - destruct R as [x [A [B [C D]]]]. exists x. split; [exact A|]. split; [exact B|]. subst s.
+      apply (binv_window lines t0); assumption.
+    - destruct R as [x [A [B [C D]]]]. exists x. split; [exact A|]. split; [exact B|]. subst s.
+      apply (binv_window lines t0); assumption.
   Qed.
 End BTop.
